@@ -26,6 +26,7 @@ type bindingOracle struct {
 	mw        *meshWorld
 	crossOK   int
 	wrongResp int
+	sigOK     map[cert.Certificate]bool
 }
 
 func certAddrs(c cert.Certificate) []netip.Addr {
@@ -58,7 +59,15 @@ func (o *bindingOracle) check(n *simNode, ev string, deep bool) bool {
 			}
 		}
 		// the certificate must really be trusted right now-or-earlier: re-verify signature chain against the CA used by the world
-		if !cs.peerCert.Certificate.CheckSignature(o.mw.ca.crt.PublicKey()) {
+		if o.sigOK == nil {
+			o.sigOK = map[cert.Certificate]bool{}
+		}
+		ok, known := o.sigOK[cs.peerCert.Certificate]
+		if !known {
+			ok = cs.peerCert.Certificate.CheckSignature(o.mw.ca.crt.PublicKey())
+			o.sigOK[cs.peerCert.Certificate] = ok
+		}
+		if !ok {
 			rc.Fail("untrusted-cert", "node %d after %s: tunnel %d holds a certificate not signed by the trusted CA", n.idx, ev, h.localIndexId)
 			return false
 		}
